@@ -109,7 +109,7 @@ class Sched(object):
                 return False
             except Violation:
                 raise
-            except Exception as e:
+            except (Exception, devices.SimSourceAbort) as e:
                 t.done = True
                 # (never keep the exception: its traceback pins the frames)
                 t.failed = canon_exc(e)
@@ -152,7 +152,7 @@ class Sched(object):
             with devices.as_task(tid):
                 try:
                     it = iter(self.views[vi])
-                except Exception as e:
+                except (Exception, devices.SimSourceAbort) as e:
                     if self.expect_fault is not None and \
                             self.expect_fault(None, e):
                         # an injected fault surfaced from iter() itself
